@@ -72,7 +72,7 @@ def wide_shard(sh):
     if tier == 'quick':
         X = X[p_best % 3::3]
     for ps in (2, 4, 6, WIDE_T):
-        for beta in (None, 0.2, 0.01):
+        for beta in (None, 0.2, 0.01, 1e-30):
             cfg = dict(pruning_size=ps, use_beta=beta is not None, unary_penalty=0.5, nbest=WIDE_T)
             if beta is not None:
                 cfg['beta'] = beta
@@ -100,7 +100,7 @@ def plan(tier):
     cfgs = []
     for ps in (1, 2, 3):
         cfgs.append(dict(pruning_size=ps, use_beta=False))
-        for beta in (0.5, 0.2, 0.01):
+        for beta in (0.5, 0.2, 0.01, 1e-8):
             cfgs.append(dict(pruning_size=ps, use_beta=True, beta=beta))
     r1 = rows_for(1)
     r2 = rows_for(2)
@@ -165,7 +165,7 @@ def check(tier, seed):
     defaults = cli_defaults(st)
     return sprops.finish(PROP, tier, seed, st, t0, shards,
                          rule=('grammar in which every tag choice yields a distinct derivation (3 tags, n<=2): every tag row over {0,-1,-4,-150,-1e33} (-150: exp underflows in float32) for every word x pruning_size {1,2,3} '
-                               'x beta {off,0.5,0.2,0.01}; plus the shared grammars under beam settings; plus a 40-tag inventory: one-word sentences with nbest=40 (the result lists exactly the admitted tags), the best tag at every position and tags at -3 / -8 at every ordered pair of other positions x pruning_size {2,4,6,40} x beta {off,0.2,0.01}. Oracle: admitted(w) from the statement; leaves must be admitted, result must be the '
+                               'x beta {off,0.5,0.2,0.01,1e-8}; plus the shared grammars under beam settings; plus a 40-tag inventory: one-word sentences with nbest=40 (the result lists exactly the admitted tags), the best tag at every position and tags at -3 / -8 at every ordered pair of other positions x pruning_size {2,4,6,40} x beta {off,0.2,0.01}. Oracle: admitted(w) from the statement; leaves must be admitted, result must be the '
                                'optimum over admitted-only derivations, failure iff none. Ties at the pruning boundary, probabilities within e^0.3 of the threshold and all-zero '
                                'probabilities are unspecified and not judged. non-trivial = >=2 differently scored admitted derivations'),
                          assumptions=['thresholds kept a factor >1.3 away from every judged decision', 'dyadic scores'],
